@@ -166,6 +166,32 @@ fn auth_packet_carries_a_property_length() {
 }
 
 #[test]
+fn auth_reason_string_set_by_the_caller_is_on_the_wire() {
+    // AuthOpts::reason_string used to return `()`: the options were dropped and no AUTH could carry a reason string
+    let rx = ScriptedRx::default();
+    let tx = RecordingTx::default();
+    let (mut ctx, _h) = poster::Context::new();
+    ctx.set_up((rx.clone(), tx.clone()));
+    rx.push(&connack(0, &[]));
+    let opts: AuthOpts = AuthOpts::new()
+        .reason(reason::AuthReason::ContinueAuthentication)
+        .authentication_method("X")
+        .authentication_data(&[1])
+        .reason_string("why");
+    let _ = futures::executor::block_on(async move { ctx.authorize(opts).await.map(|_| ()).map_err(|e| format!("{:?}", e)) });
+    let w = tx.take();
+    let f = frames(&w);
+    assert_eq!(f.len(), 1);
+    let b = &f[0];
+    let mut pos = 1;
+    rd_vbi(b, &mut pos);
+    pos += 1;
+    let props = rd_props(b, &mut pos);
+    assert!(props.contains(&(31, vec![0, 3, b'w', b'h', b'y'])), "{:?}", props);
+    assert_eq!(pos, b.len());
+}
+
+#[test]
 fn subscription_options_are_at_the_standards_bit_positions() {
     let mut b = Bench::connected(&[]);
     let mut h = b.handle.clone();
